@@ -164,6 +164,23 @@ def rand_perms(rng):
     return {"g": g, "streams": streams}
 
 
+def weaken(rng, p):
+    """the same record with some grants removed"""
+    if p is None:
+        return None
+    q = json.loads(json.dumps(p))
+    q["g"] = q["g"] & rng.randrange(1024)
+    if q["streams"] is not None:
+        for st in q["streams"]:
+            st[1] = st[1] & rng.choice([0, rng.randrange(64), 31, 47])
+            if st[2] is not None:
+                for tp in st[2]:
+                    tp[1] = tp[1] & rng.randrange(16)
+        if rng.random() < 0.25:
+            q["streams"] = None
+    return q
+
+
 def perms_term(p):
     if p is None:
         return "None"
@@ -196,16 +213,24 @@ def gen_server_trace(rng, tid):
         perms = rand_perms(rng)
         ops.append({"op": "create_user", "user": uname, "password": "password%d" % u, "perms": perms})
         ops.append({"op": "login", "c": uname, "user": uname, "password": "password%d" % u})
-        for rnd in range(rng.choice([1, 2])):
+        probed = []
+        for rnd in range(rng.choice([2, 2, 3])):
             if rnd > 0:
-                perms = rng.choice([rand_perms(rng), None])
+                # the record changes while the session stays open: a fresh record, none at all, or the same record with grants
+                # taken away (what was allowed a moment ago must now be refused: stale derived tables would still grant it)
+                perms = rng.choice([rand_perms(rng), None, weaken(rng, perms), weaken(rng, perms)])
                 ops.append({"op": "update_permissions", "uid": uname, "perms": perms})
             cand = [n for n in RULE if n != "get_client"]
             rng.shuffle(cand)
             cand = cand[:rng.randrange(10, 22)]
             cand.sort(key=lambda n: n in DESTRUCTIVE)
-            for nme in cand:
-                sid, tpc = rng.choice([1, 2]), rng.choice([1, 2])
+            again = [x for x in probed if x[0] not in DESTRUCTIVE]
+            rng.shuffle(again)
+            plan = [(n, rng.choice([1, 2]), rng.choice([1, 2])) for n in cand] + again[:12]
+            if rnd == 0:
+                plan = [("send", st, tp) for st in (1, 2) for tp in (1, 2)] + [("poll", st, tp) for st in (1, 2) for tp in (1, 2)] + plan
+            for nme, sid, tpc in plan:
+                probed.append((nme, sid, tpc))
                 o = op_instance(nme, sid, tpc)
                 o["c"] = uname
                 if nme == "join_group" or nme == "leave_group":
@@ -222,6 +247,38 @@ def gen_server_trace(rng, tid):
                 o["c"] = uname
                 meta.append((len(ops), "authz", (nme, None, sid, tpc)))
                 ops.append(o)
+    # ---- part C: one narrow grant, used, then replaced by another narrow grant on the same open session
+    def narrow():
+        # reading both streams and their topics is always granted (the lookups every request starts with pass); on top of it
+        # exactly one capability that the next update takes away again
+        k = rng.choice(["g_send", "g_poll", "s_send", "s_send", "s_poll", "s_poll", "t_send", "t_poll", "none"])
+        sid = rng.choice([1, 2])
+        rec = {"g": 0, "streams": [[1, 10, None], [2, 10, None]]}
+        if k == "g_send":
+            rec["g"] = 1 << 9
+        elif k == "g_poll":
+            rec["g"] = 1 << 8
+        elif k in ("s_send", "s_poll"):
+            rec["streams"][sid - 1][1] |= 32 if k == "s_send" else 16
+        elif k in ("t_send", "t_poll"):
+            rec["streams"][sid - 1][2] = [[rng.choice([1, 2]), 8 if k == "t_send" else 4]]
+        return rec
+    for u in range(rng.choice([2, 3])):
+        uname = "narrow%d" % u
+        perms = narrow()
+        ops.append({"op": "create_user", "user": uname, "password": "password-n%d" % u, "perms": perms})
+        ops.append({"op": "login", "c": uname, "user": uname, "password": "password-n%d" % u})
+        for rnd in range(3):
+            if rnd > 0:
+                perms = rng.choice([narrow(), narrow(), None])
+                ops.append({"op": "update_permissions", "uid": uname, "perms": perms})
+            for nme in ("send", "poll", "get_topic", "get_stream"):
+                for sid in (1, 2):
+                    for tpc in (1, 2):
+                        o = op_instance(nme, sid, tpc)
+                        o["c"] = uname
+                        meta.append((len(ops), "authz", (nme, perms, sid, tpc)))
+                        ops.append(o)
     return {"id": tid, "cfg": {"req": 1000, "seg_size": 1000000, "cache": False}, "ops": ops, "meta": meta}
 
 
